@@ -15,6 +15,16 @@ fn ob<T: ToString>(o: Option<T>) -> String {
     }
 }
 
+fn dump_cells(ws: &umya_spreadsheet::Worksheet) -> String {
+    let mut v: Vec<String> = ws
+        .get_cell_collection()
+        .iter()
+        .map(|c| format!("{}={}", c.get_coordinate().get_coordinate(), c.get_value()))
+        .collect();
+    v.sort();
+    v.join(",")
+}
+
 pub fn run(p: &[String]) -> Vec<String> {
     match p[0].as_str() {
         // ---- C17
@@ -112,6 +122,38 @@ pub fn run(p: &[String]) -> Vec<String> {
                 Some(r) => vec!["kept".to_string(), hex(&r.get_range())],
                 None => vec!["removed".to_string()],
             }
+        }
+        "sheet_edit" => {
+            // op axis p n ca ra cb rb merge kc kr
+            let mut book = umya_spreadsheet::new_file();
+            let ws = book.get_sheet_by_name_mut("Sheet1").unwrap();
+            ws.get_cell_mut((u(&p[5]), u(&p[6]))).set_value_bool(true);
+            ws.get_cell_mut((u(&p[7]), u(&p[8]))).set_value_bool(false);
+            ws.add_merge_cells(unhex(&p[9]));
+            let mut c = umya_spreadsheet::Comment::default();
+            c.new_comment((u(&p[10]), u(&p[11])));
+            ws.add_comments(c);
+            let (op, axis, pp, n) = (unhex(&p[1]), unhex(&p[2]), u(&p[3]), u(&p[4]));
+            match (op.as_str(), axis.as_str()) {
+                ("insert", "row") => ws.insert_new_row(&pp, &n),
+                ("insert", "col") => ws.insert_new_column_by_index(&pp, &n),
+                ("remove", "row") => ws.remove_row(&pp, &n),
+                ("remove", "col") => ws.remove_column_by_index(&pp, &n),
+                _ => panic!("bad op"),
+            }
+            vec![hex(&dump_cells(ws)),
+                 hex(&ws.get_merge_cells().first().map(|r| r.get_range()).unwrap_or("-".to_string())),
+                 hex(&ws.get_comments().first().map(|c| c.get_coordinate().get_coordinate()).unwrap_or("-".to_string()))]
+        }
+        "sheet_move" => {
+            // is_move ca ra cb rb range dr+100 dc+100
+            let mut book = umya_spreadsheet::new_file();
+            let ws = book.get_sheet_by_name_mut("Sheet1").unwrap();
+            ws.get_cell_mut((u(&p[2]), u(&p[3]))).set_value_bool(true);
+            ws.get_cell_mut((u(&p[4]), u(&p[5]))).set_value_bool(false);
+            let (dr, dc) = (u(&p[7]) as i32 - 100, u(&p[8]) as i32 - 100);
+            if b(&p[1]) { ws.move_range(&unhex(&p[6]), &dr, &dc); } else { ws.copy_range(&unhex(&p[6]), &dr, &dc); }
+            vec![hex(&dump_cells(ws))]
         }
         // ---- C07 scalar
         "adj_insert" => vec![va::adjustment_insert_coordinate(&u(&p[1]), &u(&p[2]), &u(&p[3])).to_string()],
